@@ -694,7 +694,7 @@ func runEdit(c Case, res *lib.Result) string {
 	if !check(0, "new") {
 		return ""
 	}
-	names := []string{"ann-set", "ann-del", "config", "layers", "list", "subject", "subject-nil", "setorig", "setorig-nomt"}
+	names := []string{"ann-set", "ann-del", "config", "layers", "list", "subject", "subject-nil", "setorig", "setorig-nomt", "config-data", "layers-data"}
 	for i, p := range c.Prog {
 		what := names[p%len(names)]
 		var err error
@@ -715,6 +715,43 @@ func runEdit(c Case, res *lib.Result) string {
 		case "config":
 			if a, ok := m.(manifest.Imager); ok {
 				err = a.SetConfig(mkDesc(100 + i))
+			} else {
+				applied = false
+			}
+		case "config-data": // the current config descriptor again, differing only in its embedded data
+			if a, ok := m.(manifest.Imager); ok {
+				d, e := a.GetConfig()
+				if e != nil {
+					applied = false
+					break
+				}
+				if len(d.Data) > 0 {
+					d.Data = nil
+				} else {
+					d.Data = []byte(fmt.Sprintf("{\"k\":%d}", i))
+				}
+				err = a.SetConfig(d)
+			} else {
+				applied = false
+			}
+		case "layers-data": // the current layers again, the first one differing only in its embedded data / annotations
+			if a, ok := m.(manifest.Imager); ok {
+				l, e := a.GetLayers()
+				if e != nil || len(l) == 0 {
+					applied = false
+					break
+				}
+				l = append([]descriptor.Descriptor{}, l...)
+				if i%2 == 0 {
+					if len(l[0].Data) > 0 {
+						l[0].Data = nil
+					} else {
+						l[0].Data = []byte("x")
+					}
+				} else {
+					l[0].Annotations = map[string]string{"n": fmt.Sprint(i)}
+				}
+				err = a.SetLayers(l)
 			} else {
 				applied = false
 			}
@@ -851,7 +888,7 @@ func genCase(r *lib.Rand) Case {
 		c.Alg512 = r.Chance(30)
 		n := 1 + r.Intn(8)
 		for i := 0; i < n; i++ {
-			c.Prog = append(c.Prog, r.Intn(9))
+			c.Prog = append(c.Prog, r.Intn(11))
 		}
 	}
 	return c
@@ -980,6 +1017,8 @@ func Run(o lib.Opts) {
 		{Kind: "new", Seed: 52, MT: mtOCIImage, ERef: "bad256", EHdr: "ok256", MTHdr: mtOCIImage},
 		{Kind: "fetch", Seed: 53, MT: mtOCIIndex, ERef: "bad256", EHdr: "ok256", MTHdr: mtOCIIndex},
 		{Kind: "edit", Seed: 54, MT: mtOCIImage, Prog: []int{8, 0, 7}},
+		{Kind: "edit", Seed: 56, MT: mtOCIImage, Prog: []int{9, 0, 9, 10, 10}},
+		{Kind: "edit", Seed: 57, MT: mtDocker, Prog: []int{9, 10, 9, 10}},
 		{Kind: "edit", Seed: 55, MT: mtOCIIndex, Prog: []int{8, 4}, Alg512: true},
 		{Kind: "dir", Seed: 56, MT: mtOCIImage, Corrupt: true, ByTag: true},
 	}
